@@ -287,6 +287,10 @@ func main() {
 		listenerMain()
 		return
 	}
+	if os.Getenv(childEnv) == dispatcherMode {
+		dispatcherMain()
+		return
+	}
 	out = bufio.NewWriterSize(os.Stdout, 1<<20)
 	defer out.Flush()
 	child(a)
